@@ -9,7 +9,9 @@ Tie:  G  loop bounds / index expressions / guards / tables of focal.py and convo
 Oracle (independent of the model, written from the property statement): direct window computation in plain
 Python -- the cells under the 1-entries, clipped, NaN ignored -> statistic; user reducers on the expected window;
 iterated clipped 3x3 mean with pass-through; full-window weighted sum with NaN margin; z-score classes, the
-value set and the negation law.
+value set and the negation law.  mean / var / std are computed in exact rational arithmetic from the float32-cast cells; a
+variance / standard deviation must be a non-negative number wherever a valid cell lies under the kernel (rasters re-scaled
+to a + b*v, a up to 1e6, b down to 1e-3, flat and two-level windows up to 7x7: `gen_scaled`).
 The same oracle judges a Dask stream: the five public functions on Dask-backed rasters (a case carries `chunks`:
 1-cell chunks, one chunk, row / column strips, random compositions), so that "the full 3x3 window, applied
 `passes` times" and "the cells under the kernel" are checked against the property text on every backend the
